@@ -311,6 +311,23 @@ def rule_resolution(ck, F):
         ck.ok("R6", "part->element", "message.rs", "message part resolved from part@element by (local name, namespace of the prefix)")
     else:
         ck.violation("R6", "part->element", "message.rs", f"message parts are not resolved from part@element by (name, namespace): {lk}")
+    if not (seen.get("entry") and "'name'" in seen["entry"]):
+        # the key read off the value of the parts table (helpers and the closures handed to them taken in): the first component of
+        # the pair each `part` child is mapped to
+        CE = og.CallExpander(F)
+        for (_fn, _site, _ctx, fields, _base) in og.field_summaries(F, "model::soap::message::SoapMessage"):
+            cur = CE.expand(fields.get("parts")) if fields.get("parts") is not None else None
+            for _ in range(8):
+                if isinstance(cur, tuple) and cur[0] == "payload":
+                    cur = cur[2]
+                elif isinstance(cur, tuple) and cur[0] == "call" and cur[1] in ("Ok", "Some") and len(cur[2]) == 1:
+                    cur = cur[2][0]
+                elif isinstance(cur, tuple) and cur[0] == "call" and cur[1] == "iter::map":
+                    cur = cur[2][1]
+                else:
+                    break
+            if isinstance(cur, tuple) and cur[0] == "tuple" and len(cur[1]) == 2:
+                seen["entry"] = og.nf_str(cur[1][0])
     if seen.get("entry") and "'name'" in seen["entry"]:
         ck.ok("R6", "part-key", "message.rs", "parts are keyed by part@name")
     else:
